@@ -399,6 +399,21 @@ Proof.
   lia.
 Qed.
 
+Lemma accepted_facts (z zraw : list (list Z)) : Forall2 (Forall2 (crel PR32_OUT)) z zraw ->
+  infnorm zraw < p_gamma1 P - p_beta P -> Forall (fun p => length p = 256%nat) zraw -> length zraw = p_l P ->
+  mapM (mapM center_mod) z = Ok (map (map (fun x => mod_pm x q)) zraw)
+  /\ rvec (p_gamma1 P - 1) (p_gamma1 P) (p_l P) (map (map (fun x => mod_pm x q)) zraw).
+Proof.
+  intros Rz Hn Lz256 Lzl. destruct sign_params as (Hg1 & Hg2 & Htau & Hl & Hkk & Hbeta & Hbg & Hom). split.
+  - destruct (vmapM_rel center_mod (fun x => mod_pm x q) (crel PR32_OUT) eq) with (v := z) (xs := zraw) as (r & Er' & Rr); [|exact Rz|].
+    + intros a x [Hax Hb]. rewrite center_mod_spec by (unfold PR32_BOUND, PR32_OUT in *; lia). eexists. split; [reflexivity|]. apply mod_pm_cong. exact Hax.
+    + rewrite Er'. f_equal. apply Forall2_eq2. exact Rr.
+  - pose proof (infnorm_lt _ _ Hn) as Hb. split; [|rewrite map_length; exact Lzl].
+    rewrite Forall_map. apply Forall_forall. intros p Hp. split.
+    + rewrite map_length. rewrite Forall_forall in Lz256. apply Lz256. exact Hp.
+    + rewrite Forall_map. rewrite Forall_forall in Hb. specialize (Hb p Hp). eapply Forall_impl; [|exact Hb]. cbn beta. intros x Hx. lia.
+Qed.
+
 Definition loop_rel (r : res (bytes * list (list Z) * list (list Z))) (s : option (bytes * list (list Z) * list (list Z))) : Prop :=
   match s with
   | None => r = OutOfFuel
@@ -408,7 +423,7 @@ Definition loop_rel (r : res (bytes * list (list Z) * list (list Z))) (s : optio
 
 Theorem sign_loop_refines sk rho K tr s1 s2 t0 A mu rho'' :
   sk_repr P sk rho K tr s1 s2 t0 -> ExpandA H P rho = Some A ->
-  forall fuel kappa, 0 <= kappa -> kappa + Z.of_nat fuel * lz P < 65536 ->
+  forall fuel kappa, 0 <= kappa -> kappa + (Z.of_nat fuel + 1) * lz P <= 65535 ->
   loop_rel (sign_loop H fuel false P sk A mu rho'' kappa) (Sign_loop H fuel P A (vNTT s1) (vNTT s2) (vNTT t0) mu rho'' kappa).
 Proof.
   intros Hrep EA. destruct sign_params as (Hg1 & Hg2 & Htau & Hl & Hkk & Hbeta & Hbg & Hom).
@@ -418,20 +433,62 @@ Proof.
   rewrite Sign_loop_step. cbn [sign_loop].
   destruct (Spec_attempt A s1 s2 t0 mu rho'' kappa) as [[[[ct zraw] h]|]|]; cbn [attempt_rel] in Hat.
   - destruct Hat as (z & Er & Rz & Rh & Hw & Hn & Lz256 & Lzl). rewrite Er. cbn [bind loop_rel].
-    exists z. split; [reflexivity|]. split; [|split; [|split; [exact Rh|exact Hw]]].
-    + (* center_mod of each coefficient = mod+- of the residue *)
-      destruct (vmapM_rel center_mod (fun x => mod_pm x q) (crel PR32_OUT) eq) with (v := z) (xs := zraw) as (r & Er' & Rr); [|exact Rz|].
-      * intros a x [Hax Hb]. rewrite center_mod_spec by (unfold PR32_BOUND, PR32_OUT in *; lia). eexists. split; [reflexivity|]. apply mod_pm_cong. exact Hax.
-      * rewrite Er'. f_equal. apply Forall2_eq2. exact Rr.
-    + pose proof (infnorm_lt _ _ Hn) as Hb. split; [|rewrite map_length; exact Lzl].
-      rewrite Forall_map. apply Forall_forall. intros p Hp. split.
-      * rewrite map_length. rewrite Forall_forall in Lz256. apply Lz256. exact Hp.
-      * rewrite Forall_map. rewrite Forall_forall in Hb. specialize (Hb p Hp). eapply Forall_impl; [|exact Hb]. cbn beta. intros x Hx. lia.
+    destruct (accepted_facts z zraw Rz Hn Lz256 Lzl) as [Ec Rzs].
+    exists z. split; [reflexivity|]. split; [exact Ec|]. split; [exact Rzs|]. split; [exact Rh|exact Hw].
   - rewrite Hat. cbn [bind].
-    replace (lz P <? 65536) with true by (symmetry; apply Z.ltb_lt; unfold lz; lia).
-    replace (kappa + lz P <? 65536) with true by (symmetry; apply Z.ltb_lt; lia). cbn [guard bind].
+    replace (lz P <? 65536) with true by (symmetry; apply Z.ltb_lt; unfold lz; lia). cbn [guard bind].
+    replace (kappa <=? 65535 - 2 * lz P) with true by (symmetry; apply Z.leb_le; unfold lz in *; nia).
     apply IH; [unfold lz; lia|unfold lz in *; lia].
   - rewrite Hat. reflexivity.
+Qed.
+
+(* the loop never panics, whatever the budget: the loop limit answers Err before the 16-bit counter can overflow *)
+Theorem sign_loop_no_panic sk rho K tr s1 s2 t0 A mu rho'' :
+  sk_repr P sk rho K tr s1 s2 t0 -> ExpandA H P rho = Some A ->
+  forall fuel kappa, 0 <= kappa <= 65535 - lz P -> is_panic (sign_loop H fuel false P sk A mu rho'' kappa) = false.
+Proof.
+  intros Hrep EA. destruct sign_params as (Hg1 & Hg2 & Htau & Hl & Hkk & Hbeta & Hbg & Hom).
+  induction fuel as [|f IH]; intros kappa Hk; [reflexivity|].
+  pose proof (sign_attempt_refines sk rho K tr s1 s2 t0 A mu rho'' kappa Hrep EA ltac:(lia) ltac:(lia)) as Hat.
+  cbn [sign_loop].
+  destruct (Spec_attempt A s1 s2 t0 mu rho'' kappa) as [[[[ct zraw] h]|]|]; cbn [attempt_rel] in Hat.
+  - destruct Hat as (z & Er & _). rewrite Er. reflexivity.
+  - rewrite Hat. cbn [bind].
+    replace (lz P <? 65536) with true by (symmetry; apply Z.ltb_lt; unfold lz; lia). cbn [guard bind].
+    destruct (kappa <=? 65535 - 2 * lz P) eqn:E; [|reflexivity]. apply Z.leb_le in E. apply IH. unfold lz in *. lia.
+  - rewrite Hat. reflexivity.
+Qed.
+
+Lemma sign_loop_ok_facts sk rho K tr s1 s2 t0 A mu rho'' ct z h :
+  sk_repr P sk rho K tr s1 s2 t0 -> ExpandA H P rho = Some A ->
+  forall fuel kappa, 0 <= kappa <= 65535 - lz P -> sign_loop H fuel false P sk A mu rho'' kappa = Ok (ct, z, h) ->
+  exists zs, mapM (mapM center_mod) z = Ok zs /\ rvec (p_gamma1 P - 1) (p_gamma1 P) (p_l P) zs /\ rvec 0 1 (p_k P) h /\ weight h <= p_omega P.
+Proof.
+  intros Hrep EA. destruct sign_params as (Hg1 & Hg2 & Htau & Hl & Hkk & Hbeta & Hbg & Hom).
+  induction fuel as [|f IH]; intros kappa Hk E; [discriminate|].
+  pose proof (sign_attempt_refines sk rho K tr s1 s2 t0 A mu rho'' kappa Hrep EA ltac:(lia) ltac:(lia)) as Hat.
+  cbn [sign_loop] in E.
+  destruct (Spec_attempt A s1 s2 t0 mu rho'' kappa) as [[[[ct' zraw] h']|]|]; cbn [attempt_rel] in Hat.
+  - destruct Hat as (z' & Er & Rz & Rh & Hw & Hn & Lz256 & Lzl). rewrite Er in E. cbn [bind] in E. injection E as <- <- <-.
+    destruct (accepted_facts z' zraw Rz Hn Lz256 Lzl) as [Ec Rzs]. eexists. split; [exact Ec|]. split; [exact Rzs|]. split; assumption.
+  - rewrite Hat in E. cbn [bind] in E.
+    replace (lz P <? 65536) with true in E by (symmetry; apply Z.ltb_lt; unfold lz; lia). cbn [guard bind] in E.
+    destruct (kappa <=? 65535 - 2 * lz P) eqn:El; [|discriminate]. apply Z.leb_le in El. apply (IH (kappa + lz P)); [unfold lz in *; lia|exact E].
+  - rewrite Hat in E. discriminate.
+Qed.
+
+Theorem sign_internal_no_panic fuel sk rho K tr s1 s2 t0 m ctx oid phm rnd nist :
+  sk_repr P sk rho K tr s1 s2 t0 -> zlen rho = 32 ->
+  is_panic (sign_internal H fuel false P sk m ctx oid phm rnd nist) = false.
+Proof.
+  intros Hrep Lr. pose proof Hrep as (Er & Ek & Et & _). destruct sign_params as (Hg1 & Hg2 & Htau & Hl & Hkk & Hbeta & Hbg & Hom).
+  unfold sign_internal. rewrite Er, Ek, Et.
+  rewrite (expand_a_spec H HL P rho HP Lr). destruct (ExpandA H P rho) as [A|] eqn:EA; cbn [res_fuel bind]; [|reflexivity].
+  set (mu := mu_of H tr _ m ctx). set (rho'' := h_shake256 H _ 64).
+  pose proof (sign_loop_no_panic sk rho K tr s1 s2 t0 A mu rho'' Hrep EA fuel 0 ltac:(unfold lz; lia)) as Hnp.
+  destruct (sign_loop H fuel false P sk A mu rho'' 0) as [[[ct z] h]| e | site |] eqn:EL; cbn [bind]; try reflexivity; [|discriminate].
+  destruct (sign_loop_ok_facts sk rho K tr s1 s2 t0 A mu rho'' ct z h Hrep EA fuel 0 ltac:(unfold lz; lia) EL) as (zs & Ec & Rz & Rh & Hw).
+  rewrite Ec. cbn [bind]. rewrite (sig_encode_spec ct zs h Rz Rh Hw). reflexivity.
 Qed.
 
 (* ---------- Algorithm 25: the crate's sk_decode returns FIPS 204 skDecode ---------- *)
@@ -496,7 +553,7 @@ Lemma Sign_internal_core fuel skb M' rnd :
 Proof. unfold Sign_internal, Sign_core. destruct (skDecode P skb) as [[[[[rho K] tr] s1] s2] t0]. reflexivity. Qed.
 
 Theorem sign_internal_refines fuel sk rho K tr s1 s2 t0 m ctx oid phm rnd nist :
-  sk_repr P sk rho K tr s1 s2 t0 -> zlen rho = 32 -> Z.of_nat fuel * lz P < 65536 ->
+  sk_repr P sk rho K tr s1 s2 t0 -> zlen rho = 32 -> (Z.of_nat fuel + 1) * lz P <= 65535 ->
   sign_internal H fuel false P sk m ctx oid phm rnd nist
     = res_fuel (Sign_core fuel rho K tr s1 s2 t0 (Mprime (mode_of nist oid phm) m ctx) rnd).
 Proof.
@@ -526,7 +583,7 @@ Definition res_sign (r : sign_result) : res bytes :=
 (* the three signing entry points, for a key given by its byte string *)
 Section API.
 Variable fuel : nat.
-Hypothesis Hfuel : Z.of_nat fuel * lz P < 65536.
+Hypothesis Hfuel : (Z.of_nat fuel + 1) * lz P <= 65535.
 Variables (skb : bytes) (sk : PrivateKey).
 Hypothesis Hb : BitPackProofs.bytes_ok skb.
 Hypothesis Hl : zlen skb = p_sk_len P.
@@ -573,4 +630,19 @@ Proof.
   apply (sign_internal_bytes M ctx [] [] rnd true).
 Qed.
 End API.
+
+(* no signing entry point panics, for any loop budget and any behaviour of the caller's generator *)
+Theorem sign_api_no_panic fuel skb sk g M ctx ph rnd : BitPackProofs.bytes_ok skb -> zlen skb = p_sk_len P -> sk_try_from_bytes P skb = Ok sk ->
+  is_panic (fst (try_sign_with_rng H fuel P sk g M ctx)) = false /\
+  is_panic (fst (try_hash_sign_with_rng H fuel P sk g M ctx ph)) = false /\
+  is_panic (internal_sign H fuel P sk M ctx rnd) = false.
+Proof.
+  intros Hb Hl Hsk. destruct (accepted_key_repr skb sk Hb Hl Hsk) as (rho & K & tr & s1 & s2 & t0 & _ & Hrep & Lr).
+  split; [|split].
+  - unfold try_sign_with_rng. destruct (negb _); [reflexivity|]. destruct (try_fill g _) as [[b|] g']; cbn [fst]; [|reflexivity].
+    apply (sign_internal_no_panic fuel sk rho K tr s1 s2 t0 _ _ _ _ _ _ Hrep Lr).
+  - unfold try_hash_sign_with_rng. destruct (negb _); [reflexivity|]. destruct (try_fill g _) as [[b|] g']; cbn [fst]; [|reflexivity].
+    destruct (hash_message H M ph) as [oid phm]. cbn [fst]. apply (sign_internal_no_panic fuel sk rho K tr s1 s2 t0 _ _ _ _ _ _ Hrep Lr).
+  - unfold internal_sign. destruct (negb _); [reflexivity|]. apply (sign_internal_no_panic fuel sk rho K tr s1 s2 t0 _ _ _ _ _ _ Hrep Lr).
+Qed.
 End S.
